@@ -31,6 +31,7 @@ UU1 = "6ba7b810-9dad-11d1-80b4-00c04fd430c8"  # version 1; the nil UUID and a ve
 SEGS = [
     "a", "aXb", "a.b", "a+b", "b", "1", "007", "1.5", "1x5", "1.", "100", "0", "10.0", "1.50", "", UU, UU.upper(), UU1,
     "2021-03-07", "2021-10-05", "2021-13-45", "2020-02-30", "x\ny", "١", "é", "v1.2", "a.txt", ".txt",
+    "e\u0301", "\u212b",  # the decomposed spelling of 'é' (another string: no match for the literal, captured as it is) and a sign whose normal form is another character
 ]
 PAIR_PATHS = ["/a", "/b", "/1", "/1.5", "/2021-03-07", "/" + UU, "/a/1", "/1/b", "/a/b/c", "/é/1"]
 BOUNDS = {"quick": {"k": 2, "d": 2}, "thorough": {"k": 3, "d": 3}}
